@@ -356,6 +356,85 @@ def gen_atomic():
     out += ["]", "", "end Nun.Gen", ""]
     return "\n".join(out)
 
+# the disconnect sequence of the three transports — glue the harness re-enacts (`CLOSE`, the end of an HTTP request) instead of running it:
+# inside the named region, which of the steps occur, in which order, and how deeply nested below the region's own block (0 = unconditional)
+CLOSE_SITES = [
+    # (name, file, region start regex)
+    ("tcp", "network/tcp_ops.rs", r'"" => \{'),
+    ("ws", "network/ws_ops.rs", r"fn on_close\b[^{]*\{"),
+    ("http", "network/http_ops.rs", r"fn process_commands\b[^{]*\{"),
+]
+CLOSE_STEPS = [("unwatch-all", r'process_request\(\s*"unwatch-all"'), ("leave", r"process_leave_request\("), ("left", r"client\.left\(")]
+
+def close_site(rel, start_re):
+    text = src(rel)
+    cut = text.find("#[cfg(test)]\nmod tests")
+    if cut > 0: text = text[:cut]
+    b = blank(text)
+    ms = list(re.finditer(start_re, text))
+    if len(ms) != 1: raise ExtractError(f"close sequence in {rel}: region /{start_re}/ found {len(ms)} times")
+    st = ms[0].end(); depth = 1; i = st
+    while i < len(b) and depth > 0:
+        if b[i] == "{": depth += 1
+        elif b[i] == "}": depth -= 1
+        i += 1
+    en = i
+    found = []
+    for name, rx in CLOSE_STEPS:
+        for m in re.finditer(rx, text[st:en]):
+            d = 0
+            for ch in b[st: st + m.start()]:
+                if ch == "{": d += 1
+                elif ch == "}": d -= 1
+            found.append((m.start(), name, d))
+    found.sort()
+    out = []
+    for _, name, d in found:
+        if not out or out[-1] != (name, d): out.append((name, d))
+    return out
+
+def gen_close():
+    out = ["namespace Nun.Gen", "",
+           "/-- the disconnect sequence of each transport as written in the source: (step, nesting depth below the region's block), in order -/",
+           "def closeSequences : List (List Nat × List (List Nat × Nat)) := ["]
+    for ix, (name, rel, st) in enumerate(CLOSE_SITES):
+        steps = close_site(rel, st)
+        out.append(f"  -- {name} ({rel}): " + ", ".join(f"{n}@{d}" for n, d in steps))
+        out.append(f"  ({bytes_lit(name)}, [" + ", ".join(f"({bytes_lit(n)}, {d})" for n, d in steps) + "])" + ("," if ix + 1 < len(CLOSE_SITES) else ""))
+    out += ["]", "", "end Nun.Gen", ""]
+    return "\n".join(out)
+
+# notification fan-out: every line pushed to a subscriber goes through a CLONE of the stored sender (a futures mpsc clone has a slot of its
+# own, so the push cannot fail for a full queue and the loop's other subscribers are not affected by one failure); the model's pushes are
+# unconditional per subscriber — (function, number of try_send calls, how many are on a clone, how many sit inside a `for` loop body that
+# is left early by break / return / `?` / a short-circuiting iterator adaptor)
+NOTIFY_SITES = [("notify_watchers", "bo.rs", r"fn notify_watchers\b[^{]*\{"), ("remove_value", "bo.rs", r"pub fn remove_value\b[^{]*\{"),
+                ("send_message_to_arbiter_client", "consensus_ops.rs", r"fn send_message_to_arbiter_client\b[^{]*\{")]
+
+def gen_notify():
+    out = ["namespace Nun.Gen", "",
+           "/-- (function, try_send calls, of which on a clone of the stored sender, early exits of the fan-out loop) -/",
+           "def notifySites : List (List Nat × Nat × Nat × Nat) := ["]
+    for ix, (name, rel, hdr) in enumerate(NOTIFY_SITES):
+        raw, b = fn_body(rel, hdr, f"notify site {name}")
+        sends = list(re.finditer(r"\.\s*try_send\s*\(", b))
+        cloned = [m for m in sends if re.search(r"\.\s*clone\s*\(\s*\)\s*$", b[:m.start()])]
+        # the loop over the subscribers: a `for … in` whose body contains a try_send; early exits inside it
+        early = 0
+        for fm in re.finditer(r"\bfor\b[^{;]*\{", b):
+            depth = 1; i = fm.end()
+            while i < len(b) and depth > 0:
+                if b[i] == "{": depth += 1
+                elif b[i] == "}": depth -= 1
+                i += 1
+            body = b[fm.end():i]
+            if "try_send" in body: early += len(re.findall(r"\bbreak\b|\breturn\b|\?\s*;", body))
+        early += len(re.findall(r"\.\s*(all|any|find|take_while|try_for_each|position)\s*\(", b)) if sends else 0
+        out.append(f"  -- {name} ({rel})")
+        out.append(f"  ({bytes_lit(name)}, {len(sends)}, {len(cloned)}, {early})" + ("," if ix + 1 < len(NOTIFY_SITES) else ""))
+    out += ["]", "", "end Nun.Gen", ""]
+    return "\n".join(out)
+
 def write(name, text):
     os.makedirs(OUT, exist_ok=True)
     p = os.path.join(OUT, name)
@@ -365,7 +444,7 @@ def write(name, text):
 
 def main():
     errors = []
-    for name, fn in [("Lits.lean", gen_lits), ("Guards.lean", gen_guards), ("PanicSites.lean", gen_panic_sites), ("Atomic.lean", gen_atomic)]:
+    for name, fn in [("Lits.lean", gen_lits), ("Guards.lean", gen_guards), ("PanicSites.lean", gen_panic_sites), ("Atomic.lean", gen_atomic), ("Close.lean", gen_close), ("Notify.lean", gen_notify)]:
         try:
             write(name, "-- GENERATED by extract/extract.py from /repo/src — do not edit\n" + fn())
         except ExtractError as e:
